@@ -137,7 +137,7 @@ Qed.
 Lemma stmt_files_all s : stmt_files s.
 Proof.
   induction s as [ce body IH | own fid body IH | s Hs] using stmt_ind2; intros inrep st st' d H.
-  - rewrite lay_stmt_repeat in H. xinv H. cbn [file_ids_stmt]. rewrite file_ids_go_nested. eapply iter_files; eauto.
+  - rewrite lay_stmt_repeat in H. xinv H. destruct (65536 <? a0); [discriminate|]. cbn [file_ids_stmt]. rewrite file_ids_go_nested. eapply iter_files; eauto.
   - destruct inrep; [discriminate|]. rewrite lay_stmt_include in H. xinv H. destruct a as [s1 d1]. simpl in H. inversion H; subst.
     pose proof (list_files _ (Forall_cut_end _ _ IH) _ _ _ _ Ha) as G. simpl in G.
     cbn [file_ids_stmt]. rewrite file_ids_go_cut. eapply Forall_impl; [|exact G].
